@@ -50,8 +50,11 @@ LAYOUTS = {
     # origin-spanning region holding a pre-origin, an origin-spanning and a post-origin protocluster, and a second region
     "origin-multi": [("g0", [(156, 210)], 1, None), ("g1", [(96, 114)], -1, None), ("g2", [(216, 240), (0, 30)], 1, None),
                      ("g3", [(36, 54)], 1, None)],
+    # frame offsets on origin-spanning genes (5' exon before the origin on the forward strand, after it on the reverse strand)
+    "origin-codonstart": [("g0", [(12, 72)], 1, None), ("g1", [(78, 138)], -1, 2), ("g2", [(210, 240), (0, 31)], 1, 2)],
+    "origin-reverse-codonstart": [("g0", [(30, 90)], 1, 3), ("g1", [(100, 160)], 1, None), ("g2", [(222, 240), (0, 44)], -1, 3)],
 }
-CIRCULAR_ONLY = {"origin", "origin-reverse", "origin-multi"}
+CIRCULAR_ONLY = {"origin", "origin-reverse", "origin-multi", "origin-codonstart", "origin-reverse-codonstart"}
 
 RULESETS = {
     # (name, cutoff, neighbourhood, tree, superiors, extender)
